@@ -118,7 +118,8 @@ def register(reg):
     en = ['x0', 'y0', 'x1', 'y1', 'x', 'y']
     reg.add_lemma(Lemma('contrib_reversed_edge_negates', [(x, 'real') for x in en],
                         ensures=lambda n: [('neg', contrib(n.x1, n.y1, n.x0, n.y0, n.x, n.y) ==
-                                            -contrib(n.x0, n.y0, n.x1, n.y1, n.x, n.y))], props=P + ('C15',)))
+                                            -contrib(n.x0, n.y0, n.x1, n.y1, n.x, n.y))], props=P + ('C15',),
+                        tactic='qfnra-nlsat'))
     reg.add_lemma(Lemma('contrib_translation_invariant', [(x, 'real') for x in en + ['dx', 'dy']],
                         ensures=lambda n: [('same', contrib(n.x0 + n.dx, n.y0 + n.dy, n.x1 + n.dx, n.y1 + n.dy,
                                                             n.x + n.dx, n.y + n.dy) ==
@@ -262,4 +263,7 @@ def register_line(reg):
                                                                         'todo': ['inv:todo', 'inv:range']}),
                             1: Loop(var='k', invariant=inv_k),
                             2: Loop(var='m', invariant=inv_m)},
-                     props=P, merge=False))
+                     props=P, merge=False,
+                     # not proved (yet): the link between numpy's strided any()/min()/max() expressions and the
+                     # cell-position form of the spec; covered by the run-time checked stand-in
+                     stand_in=('inv-keep:this', 'inv-keep:no-earlier-segment', 'inv-init:no-vertex', 'inv-keep:done')))
